@@ -1,81 +1,11 @@
 (* C01 — auto_batch_size_ (utils._set_max_batch_size) keeps a tree coherent in the growing regime: no batch_dims limit,
-   or a limit that is not below the rank of any node of the subtree (below that, nested nodes are shrunk before their
-   parent and a later failure leaves them shorter than the parent: finding D108). *)
+   or a limit that is not below the rank of any node of the subtree, when no node below carries dim names (the batch
+   size assignments it performs then cannot fail half-way).  The shrinking regime is covered by the oracle only. *)
 From Coq Require Import List String Bool Arith Lia.
 Import ListNotations.
 From TD Require Import Model.C01_Tree Model.C01_Ops Model.C01_Scope Proofs.C01_TreeP Proofs.C01_NamesP Proofs.C01_BatchP.
 Open Scope string_scope.
 Open Scope list_scope.
-
-(* ---- the bookkeeping functions keep the skeleton: node-ness, tensors held, hollow-freeness ---- *)
-Definition same_sk (c c' : tree) : Prop :=
-  is_node c' = is_node c /\ holds_tensor c' = holds_tensor c /\ (hollow_free c = true -> hollow_free c' = true).
-
-Lemma same_sk_refl : forall c, same_sk c c.
-Proof. intros c. repeat split; auto. Qed.
-
-Lemma seq_children_hf : forall f es,
-  Forall (fun kv => same_sk (snd kv) (fst (f (snd kv)))) es ->
-  forallb (fun kv => (negb (is_node (snd kv)) || holds_tensor (snd kv)) && hollow_free (snd kv)) es = true ->
-  forallb (fun kv => (negb (is_node (snd kv)) || holds_tensor (snd kv)) && hollow_free (snd kv)) (fst (seq_children f es)) = true.
-Proof.
-  intros f. induction es as [|[key c] r IH]; intros HF H; [reflexivity|].
-  inversion HF as [|? ? Hc Hr]; subst. cbn [snd] in Hc. cbn [forallb snd] in H. apply andb_true_iff in H as [H1 H2].
-  rewrite seq_children_cons. destruct (f c) as [c' okc]. cbn [fst] in Hc. destruct Hc as (S1 & S2 & S3).
-  apply andb_true_iff in H1 as [Ha Hb].
-  assert (Hc' : (negb (is_node c') || holds_tensor c') && hollow_free c' = true) by (rewrite S1, S2, Ha, (S3 Hb); reflexivity).
-  destruct okc.
-  - specialize (IH Hr H2). destruct (seq_children f r) as [r' ok]. cbn [fst] in *. cbn [forallb snd]. now rewrite Hc', IH.
-  - cbn [fst forallb snd]. now rewrite Hc', H2.
-Qed.
-
-Lemma erase1_sk : forall c, same_sk c (erase1 c).
-Proof. intros [|k bs dv nm es]; repeat split; auto. Qed.
-
-Lemma erase_children_hf : forall es,
-  forallb (fun kv => (negb (is_node (snd kv)) || holds_tensor (snd kv)) && hollow_free (snd kv)) es = true ->
-  forallb (fun kv => (negb (is_node (snd kv)) || holds_tensor (snd kv)) && hollow_free (snd kv)) (erase_children es) = true.
-Proof.
-  unfold erase_children. induction es as [|[key c] r IH]; intros H; [reflexivity|].
-  cbn [forallb snd map fst] in *. apply andb_true_iff in H as [H1 H2]. rewrite (IH H2), andb_true_r.
-  destruct c; exact H1.
-Qed.
-
-Lemma set_names_sk : forall t v, same_sk t (fst (set_names t v)).
-Proof.
-  induction t as [sh dd|k bs dv nm es IH] using tree_ind2; intros v; [apply same_sk_refl|].
-  split; [apply set_names_is_node|]. split; [apply set_names_holds|].
-  intros Hf. cbn [hollow_free] in Hf. cbn [set_names].
-  destruct v as [l|]; [|cbn [fst hollow_free]; now apply erase_children_hf].
-  destruct (Nat.eqb (count_none l) (List.length bs)); [cbn [fst hollow_free]; now apply erase_children_hf|].
-  destruct (names_unique l); cbn [negb]; [|exact Hf].
-  destruct (Nat.eqb (List.length l) (List.length bs)); cbn [negb]; [|exact Hf].
-  match goal with |- context [seq_children ?g es] => set (g0 := g) end.
-  assert (Hes : forallb (fun kv => (negb (is_node (snd kv)) || holds_tensor (snd kv)) && hollow_free (snd kv)) (fst (seq_children g0 es)) = true).
-  { apply seq_children_hf; [|exact Hf]. eapply Forall_impl; [|exact IH]. intros [key c] IHc. cbn [snd] in *.
-    subst g0. cbn beta. destruct c as [sh dd|ck cbs cdv cnm ces]; [apply same_sk_refl|].
-    destruct (l ++ skipn (List.length l) (names_of (Node ck cbs cdv cnm ces))) as [|[n|] [|n2 tl]]; try apply IHc.
-    - destruct (Nat.eqb (List.length cbs) 0); [apply IHc|apply same_sk_refl].
-    - cbn [fst]. repeat split; [cbn; apply erase_children_holds|]. cbn [hollow_free]. apply erase_children_hf. }
-  destruct (seq_children g0 es) as [es' ok]. cbn [fst] in Hes. destruct ok; exact Hes.
-Qed.
-
-Lemma set_bs_sk : forall t sz new, same_sk t (fst (set_bs sz t new)).
-Proof.
-  induction t as [sh dd|k bs dv nm es IH] using tree_ind2; intros sz new; [apply same_sk_refl|].
-  split; [apply set_bs_is_node|]. split; [apply set_bs_holds|].
-  intros Hf. cbn [hollow_free] in Hf. rewrite set_bs_node.
-  destruct (sz && shape_eqb new bs); [exact Hf|].
-  assert (Hes : forallb (fun kv => (negb (is_node (snd kv)) || holds_tensor (snd kv)) && hollow_free (snd kv)) (fst (seq_children (grow new) es)) = true).
-  { apply seq_children_hf; [|exact Hf]. eapply Forall_impl; [|exact IH]. intros [key c] IHc. cbn [snd] in *.
-    destruct c as [sh dd|ck cbs cdv cnm ces]; [apply same_sk_refl|]. cbn [grow].
-    destruct (Nat.ltb (List.length cbs) (List.length new)); [apply IHc|apply same_sk_refl]. }
-  destruct (seq_children (grow new) es) as [es1 ok1]. cbn [fst] in Hes.
-  destruct ok1; cbn [negb]; [|exact Hes].
-  destruct (check_new new es1); cbn [negb]; [|exact Hes].
-  destruct nm as [names|]; [|exact Hes].
-  apply (set_names_sk (Node k new dv None es1)). exact Hes.
-Qed.
 
 (* ---- the loop of _set_max_batch_size ---- *)
 Lemma maxbs_acc : forall s0 rest k acc, prefixb acc (maxbs s0 rest k acc) = true.
@@ -139,25 +69,24 @@ Qed.
 Definition auto_scope (k : option nat) (p : list nat) (t : tree) : Prop :=
   match k with None => True | Some kk => List.length p <= kk /\ max_rank t <= kk end.
 
-Lemma auto_bs_sk : forall t k, same_sk t (fst (auto_bs t k)).
+Lemma auto_bs_no_names : forall t k, no_names t = true -> no_names (fst (auto_bs t k)) = true.
 Proof.
-  induction t as [sh dd|kd bs dv nm es IH] using tree_ind2; intros k; [apply same_sk_refl|].
+  induction t as [sh dd|kd bs dv nm es IH] using tree_ind2; intros k Hn; [reflexivity|].
   cbn [auto_bs].
   match goal with |- context [seq_children ?g es] => set (g0 := g) end.
-  assert (Hsk : Forall (fun kv => same_sk (snd kv) (fst (g0 (snd kv)))) es).
-  { eapply Forall_impl; [|exact IH]. intros [key c] IHc. cbn [snd] in *. subst g0. cbn beta.
-    destruct c as [|ck cbs cdv cnm ces]; [apply same_sk_refl|]. destruct (is_data _); [apply IHc|apply same_sk_refl]. }
-  assert (H1 : same_sk (Node kd bs dv nm es) (Node kd bs dv nm (fst (seq_children g0 es)))).
-  { split; [reflexivity|]. split.
-    - cbn [holds_tensor]. apply seq_children_holds. eapply Forall_impl; [|exact Hsk]. intros kv (_ & H & _). exact H.
-    - intros Hf. cbn [hollow_free] in *. now apply seq_children_hf. }
-  destruct (seq_children g0 es) as [es1 ok1]. cbn [fst] in H1.
+  pose proof Hn as Hn0. cbn [no_names] in Hn. apply andb_true_iff in Hn as [Hnm Hnn].
+  assert (Hes : forallb (fun kv => no_names (snd kv)) (fst (seq_children g0 es)) = true).
+  { apply forallb_forall. apply Forall_forall.
+    apply (seq_children_Forall g0 (fun c => no_names c = true) (fun c => no_names c = true)); auto.
+    - apply Forall_forall. now apply forallb_forall.
+    - eapply Forall_impl; [|exact IH]. intros [key c] IHc Hc. cbn [snd] in *. subst g0. cbn beta.
+      destruct c as [|ck cbs cdv cnm ces]; [reflexivity|]. destruct (is_data _); [now apply IHc|exact Hc]. }
+  destruct (seq_children g0 es) as [es1 ok1]. cbn [fst] in Hes.
+  assert (H1 : no_names (Node kd bs dv nm es1) = true) by (cbn [no_names]; now rewrite Hnm, Hes).
   destruct ok1; cbn [negb]; [|exact H1].
-  assert (Htrans : forall t2, same_sk (Node kd bs dv nm es1) t2 -> same_sk (Node kd bs dv nm es) t2).
-  { intros t2 (A & B & C). destruct H1 as (A1 & B1 & C1). repeat split; [congruence|congruence|auto]. }
   destruct (filter is_data (map snd es1)) as [|d0 rest].
-  - destruct k as [[|kk]|]; try exact H1. apply Htrans. apply set_bs_sk.
-  - apply Htrans. apply set_bs_sk.
+  - destruct k as [[|kk]|]; try exact H1. now apply set_bs_no_names.
+  - now apply set_bs_no_names.
 Qed.
 
 Lemma prefixb_firstn_le : forall p s n, prefixb p s = true -> List.length p <= n -> prefixb p (firstn n s) = true.
@@ -168,31 +97,36 @@ Proof.
 Qed.
 
 Lemma auto_bs_coh : forall t k p d,
-  coh p d t = true -> hollow_free t = true -> auto_scope k p t -> coh p d (fst (auto_bs t k)) = true.
+  coh p d t = true -> no_names_below t = true -> auto_scope k p t -> coh p d (fst (auto_bs t k)) = true.
 Proof.
   induction t as [sh dd|kd bs dv nm es IH] using tree_ind2; intros k p d Hc Hf Hs; [exact Hc|].
   pose proof Hc as Hall. apply coh_node_iff in Hc as (H1 & H2 & H3 & H4).
-  cbn [auto_bs].
+  cbn [auto_bs]. cbn [no_names_below] in Hf.
   match goal with |- context [seq_children ?g es] => set (g0 := g) end.
+  assert (Hnb : forall kv, In kv es -> no_names_below (snd kv) = true).
+  { intros [key c] Hin. rewrite forallb_forall in Hf. specialize (Hf _ Hin). cbn [snd] in *.
+    destruct c as [|ck cbs cdv cnm ces]; [reflexivity|]. cbn [no_names] in Hf. apply andb_true_iff in Hf as [_ Hf]. exact Hf. }
   assert (Hes1 : coh_ents bs dv (fst (seq_children g0 es)) = true).
   { apply seq_children_coh; [exact H4|]. rewrite Forall_forall in IH. apply Forall_forall. intros [key c] Hin Hcc.
     cbn [snd] in *. subst g0. cbn beta. destruct c as [|ck cbs cdv cnm ces]; [exact Hcc|].
     destruct (is_data _); [|exact Hcc].
-    apply (IH _ Hin); [exact Hcc|apply (hollow_free_child _ _ _ _ _ _ Hf Hin)|].
+    apply (IH _ Hin); [exact Hcc|apply (Hnb _ Hin)|].
     destruct k as [kk|]; [|exact I]. destruct Hs as [Hs1 Hs2]. cbn [max_rank] in Hs2. split.
     - etransitivity; [|exact Hs2]. apply Nat.le_max_l.
     - etransitivity; [apply (max_rank_child kd bs dv nm es _ Hin)|exact Hs2]. }
-  assert (Hhf : hollow_free (Node kd bs dv nm (fst (seq_children g0 es))) = true).
-  { cbn [hollow_free] in *. apply seq_children_hf; [|exact Hf]. rewrite Forall_forall in IH. apply Forall_forall.
-    intros [key c] Hin. cbn [snd]. subst g0. cbn beta. destruct c as [|ck cbs cdv cnm ces]; [apply same_sk_refl|].
-    destruct (is_data _); [apply auto_bs_sk|apply same_sk_refl]. }
+  assert (Hhf : forallb (fun kv => no_names (snd kv)) (fst (seq_children g0 es)) = true).
+  { apply forallb_forall. apply Forall_forall.
+    apply (seq_children_Forall g0 (fun c => no_names c = true) (fun c => no_names c = true)); auto.
+    - apply Forall_forall. now apply forallb_forall.
+    - apply Forall_forall. intros [key c] Hin Hcn. cbn [snd] in *. subst g0. cbn beta.
+      destruct c as [|ck cbs cdv cnm ces]; [reflexivity|]. destruct (is_data _); [now apply auto_bs_no_names|exact Hcn]. }
   destruct (seq_children g0 es) as [es1 ok1]. cbn [fst] in *.
   assert (Ht1 : coh p d (Node kd bs dv nm es1) = true) by (apply coh_node_iff; auto).
   destruct ok1; cbn [negb]; [|exact Ht1].
   destruct (filter is_data (map snd es1)) as [|d0 rest] eqn:Ed.
   - destruct k as [[|kk]|]; try exact Ht1.
-    apply set_bs_coh; [exact Ht1|exact Hhf|]. intros _. destruct Hs as [Hs1 _]. now apply prefixb_firstn_le.
-  - apply set_bs_coh; [exact Ht1|exact Hhf|]. intros _.
+    apply set_bs_coh; [exact Ht1|exact Hhf|]. destruct Hs as [Hs1 _]. now apply prefixb_firstn_le.
+  - apply set_bs_coh; [exact Ht1|exact Hhf|].
     assert (Hdata : forall c, In c (filter is_data (map snd es1)) -> prefixb p (tshape c) = true).
     { intros c Hin. apply filter_In in Hin as [Hin _]. apply in_map_iff in Hin as ([key c0] & <- & Hin). cbn [snd].
       apply coh_ents_forall in Hes1. rewrite Forall_forall in Hes1. specialize (Hes1 _ Hin). cbn [snd] in Hes1.
